@@ -160,6 +160,10 @@ func (p *parser) parseSchemaDefinition(description descriptionWithComment) *Sche
 	def.AfterDescriptionComment = comment
 	def.Directives = p.parseDirectives(true)
 
+	if p.peek().Kind != lexer.BraceL {
+		p.error(p.peek(), "Expected %s, found %s", lexer.BraceL, p.peek().Kind.String())
+		return &def
+	}
 	def.EndOfDefinitionComment = p.some(lexer.BraceL, lexer.BraceR, func() {
 		def.OperationTypes = append(def.OperationTypes, p.parseOperationTypeDefinition())
 	})
